@@ -9,7 +9,9 @@ vector over the key alphabet `names`; `UP` (in `Lemmas/C14.lean`) is `_update_co
 Sentence of the property → theorem (all for every chain length / nesting / input value, no bounds):
 
 * "Compose(v1..vn) and the Sequence (v1..vn) produce the same data … and the same context"
-  → `compose_eq_sequence` (hypotheses `NamesOK`, `ChainWF`; rests on `UP_assoc`: `_update_context` is associative);
+  → **false without restriction** (`compose_eq_sequence_full`, refuted by `compose_ne_sequence_attr_clash`: an
+  attribute named like an earlier type, `notes/C14_defect_3.md`); proved: `compose_eq_sequence_partial` (hypotheses
+  `NamesOK`, `ChainWF` incl. "no attribute named like a type"; rests on `UP_assoc`: `_update_context` is associative);
   for the tree before the patch `compose_eq_sequence_pinned_partial` and the refutation `compose_ne_sequence_pinned`.
   `chainWFb_sound`: the Boolean check of `ChainWF` that the driver reports for every generated case is sound.
 * "… the same data, vn.getter(...v1.getter(x)...)" → `seqCall_data`, `compose_getter`, `call_data`.
@@ -34,7 +36,7 @@ Sentence of the property → theorem (all for every chain length / nesting / inp
   `mkComposeK_wf`, `mkCombine_wf` — hence, by mutual induction over expression trees, `evalExpr_wf` / `evalArgs_wf`
   (every tree that passes the syntactic check `exprOKb` constructs a variable whose getter is the reference
   semantics `exprData` and whose context is well-formed with history `exprTypes`), and
-  `compose_eq_sequence_expr`: Compose = Sequence for chains of such trees, from the executable check `chainOKb`
+  `compose_eq_sequence_expr_partial`: Compose = Sequence for chains of such trees, from the executable check `chainOKb`
   alone.  `leavesOKb_sound`, `namesOK2b_sound`, `typesOKb_sound`, `chainWFb_sound`: the Boolean checks the driver
   reports imply the hypotheses.
 * object identities (in-place mutation) are in `Props/C14Tok.lean`. -/
@@ -44,7 +46,7 @@ open V
 section
 variable {names : List String} {D : Type}
 
-/-- Hypotheses of `compose_eq_sequence` on the value's `context.variable` `cv` and the variables' contexts `as`:
+/-- Hypotheses of `compose_eq_sequence_partial` on the value's `context.variable` `cv` and the variables' contexts `as`:
 * a pre-existing `context.variable` that is a dictionary is well-formed (`VarWF`: over the alphabet, `compose` a
   non-empty list of strings, `type` a non-empty string); absent or non-dictionary values are unrestricted;
 * every variable context is well-formed and has a `name`;
@@ -62,7 +64,7 @@ def PinnedOK (names : List String) (fx : Bool) (cv : Option V) (as : List Slots)
   fx = true ∨ ((∀ p, cv = some (.dict p) → hasKey p (kCompose names) = true → hasKey p (kType names) = true) ∧
                ∀ b ∈ as.dropLast, hasKey b (kType names) = true)
 
-/-- common proof of `compose_eq_sequence` (patched condition) and `compose_eq_sequence_pinned_partial` -/
+/-- common proof of `compose_eq_sequence_partial` (patched condition) and `compose_eq_sequence_pinned_partial` -/
 theorem compose_eq_sequence_gen (hn : NamesOK names) (fx : Bool) (vars : List (Variable D)) (hne : vars ≠ [])
     (x : Value D) (h : ChainWF names (cvarOf names x) (vars.map Variable.varCtx))
     (hfx : PinnedOK names fx (cvarOf names x) (vars.map Variable.varCtx)) :
@@ -141,13 +143,13 @@ or not), every input value — bare, with a context, with any pre-existing `cont
 dictionary, or anything that is not a dictionary, for which both raise the same exception or both ignore it).
 `Compose(...)` is constructed without an exception and applying it equals applying the variables in order.
 Holds for the tree with `notes/C14_defect_1.patch` (`fx = true`). -/
-theorem compose_eq_sequence (hn : NamesOK names) (vars : List (Variable D)) (hne : vars ≠ []) (x : Value D)
+theorem compose_eq_sequence_partial (hn : NamesOK names) (vars : List (Variable D)) (hne : vars ≠ []) (x : Value D)
     (h : ChainWF names (cvarOf names x) (vars.map Variable.varCtx)) :
     ∃ c, mkCompose names true (vars.map some) (emptyD names.length) = .ok c ∧
          call names true c x = seqCall names true vars x :=
   compose_eq_sequence_gen hn true vars hne x h (Or.inl rfl)
 
-/-- the statement of `compose_eq_sequence` for the condition as pinned: false (`compose_ne_sequence_pinned`) -/
+/-- the statement of `compose_eq_sequence_partial` for the condition as pinned: false (`compose_ne_sequence_pinned`) -/
 def compose_eq_sequence_pinned_full : Prop :=
   ∀ (names : List String) (D : Type), NamesOK names → ∀ (vars : List (Variable D)), vars ≠ [] → ∀ x : Value D,
     ChainWF names (cvarOf names x) (vars.map Variable.varCtx) →
@@ -397,7 +399,7 @@ def hasComposeList (o : Option Slots) : Bool :=
     | _ => false
   | none => false
 
-/-- the hypotheses of `compose_eq_sequence` hold for the chain (typed, untyped, typed) on the value `exX` … -/
+/-- the hypotheses of `compose_eq_sequence_partial` hold for the chain (typed, untyped, typed) on the value `exX` … -/
 example : ChainWF exNames (cvarOf exNames exX) ([exV1, exV0, exV2].map Variable.varCtx) :=
   chainWFb_sound (by decide)
 
@@ -446,6 +448,82 @@ theorem compose_ne_sequence_pinned : ¬ compose_eq_sequence_pinned_full := by
       | .ok c => some c
       | .error _ => none) = true := by rfl
   have hr : hasComposeList (ctxOf (seqCall exNames false [exV0, exV1] exX)) = false := by rfl
+  have hcontra : true = false := hl.symm.trans (h3.trans hr)
+  cases hcontra
+
+/-! ### the unrestricted first sentence is false of the code: an attribute named like an earlier type
+
+`ChainWF` contains `NoClash` ("no key of a variable context is named like a type of the run, except the types
+that context lists itself").  The property statement has no such restriction ("arbitrary extra attributes").
+Without it the statement is **false** of the code as it is (`notes/C14_defect_3.md`): -/
+
+/-- `ChainWF` without `NoClash`: well-formed contexts with names, no type called `compose` -/
+structure ChainWF0 (names : List String) (cv : Option V) (as : List Slots) : Prop where
+  pre : ∀ p, cv = some (.dict p) → VarWF names p
+  vars : ∀ a ∈ as, VarWF names a ∧ (getSlot a (kName names)).isSome = true
+  noCompose : inT names (allTypes names cv as) (kCompose names) = false
+
+/-- the first sentence of C14 for arbitrary attribute names (current condition, `fx = true`): **false**,
+see `compose_ne_sequence_attr_clash`; the proved part is `compose_eq_sequence_partial` -/
+def compose_eq_sequence_full : Prop :=
+  ∀ (names : List String) (D : Type), NamesOK names → ∀ (vars : List (Variable D)), vars ≠ [] → ∀ x : Value D,
+    ChainWF0 names (cvarOf names x) (vars.map Variable.varCtx) →
+    ∃ c, mkCompose names true (vars.map some) (emptyD names.length) = .ok c ∧
+         call names true c x = seqCall names true vars x
+
+/-- `Variable("a", f, type="ta", t0=3)`: an attribute that is called like the type the value `exX` carries -/
+def exVa : Variable Nat := exVar "a" (· + 1) "ta" [none, none, none, some (.int 3), none, none, none, none]
+
+/-- what `context.variable` of an outcome holds under the key `t0` is a dictionary -/
+def t0IsDict (o : Option Slots) : Bool :=
+  match o with
+  | some c =>
+    match getSlot c (kVariable exNames) with
+    | some (.dict r) => (match getSlot r (key exNames "t0") with | some (.dict _) => true | _ => false)
+    | _ => false
+  | none => false
+
+/-- **`Compose(a, v2)` and the Sequence `(a, v2)` differ** on the value `exX` (which carries the typed
+`context.variable` of `t0`) when `a` has an attribute called `t0`: after `Compose`, `context.variable["t0"]` is the
+sub-context of the type `t0`; in the Sequence `a`'s attribute `3` shadows it and is then carried on as if it were
+the type's sub-context.  All hypotheses of `compose_eq_sequence_partial` except `NoClash` hold.
+Real code: the same (`notes/C14_defect_3.md`, with a proposed patch). -/
+theorem compose_ne_sequence_attr_clash : ¬ compose_eq_sequence_full := by
+  intro h
+  have hwf : ChainWF0 exNames (cvarOf exNames exX) ([exVa, exV2].map Variable.varCtx) := by
+    refine ⟨?_, ?_, by decide⟩
+    · intro p hp
+      have h0 : cvarOf exNames exX = some (.dict exPre) := by rfl
+      rw [h0] at hp; cases hp
+      exact varWFb_sound (by decide)
+    · intro a ha
+      simp only [List.map_cons, List.map_nil, List.mem_cons, List.not_mem_nil, or_false] at ha
+      rcases ha with rfl | rfl
+      · exact ⟨varWFb_sound (by decide), by decide⟩
+      · exact ⟨varWFb_sound (by decide), by decide⟩
+  obtain ⟨c, hc, heq⟩ := h exNames Nat exNames_ok [exVa, exV2] (by simp) exX hwf
+  have hvc : c.varCtx =
+      [none, some (.seq false [.str "ta", .str "tb"]), some (.str "v2"), none,
+       some (.dict [none, none, some (.str "a"), some (.int 3), none, none, none, none]),
+       some (.dict [none, none, some (.str "v2"), none, none, none, none, none]), some (.str "tb"), none] := by
+    have h1 : (match mkCompose exNames true ([exVa, exV2].map some) (emptyD exNames.length) with
+        | .ok c => some c.varCtx
+        | .error _ => none) = some
+      [none, some (.seq false [.str "ta", .str "tb"]), some (.str "v2"), none,
+       some (.dict [none, none, some (.str "a"), some (.int 3), none, none, none, none]),
+       some (.dict [none, none, some (.str "v2"), none, none, none, none, none]), some (.str "tb"), none] := by rfl
+    rw [hc] at h1
+    exact Option.some.inj h1
+  have h2 : ctxOf (call exNames true c exX) = ctxOf (seqCall exNames true [exVa, exV2] exX) := by rw [heq]
+  rw [ctxOf_call, hvc] at h2
+  have h3 := congrArg t0IsDict h2
+  have hl : t0IsDict (match updateContext exNames true (getDataContext exNames exX).2
+      [none, some (.seq false [.str "ta", .str "tb"]), some (.str "v2"), none,
+       some (.dict [none, none, some (.str "a"), some (.int 3), none, none, none, none]),
+       some (.dict [none, none, some (.str "v2"), none, none, none, none, none]), some (.str "tb"), none] with
+      | .ok c => some c
+      | .error _ => none) = true := by rfl
+  have hr : t0IsDict (ctxOf (seqCall exNames true [exVa, exV2] exX)) = false := by rfl
   have hcontra : true = false := hl.symm.trans (h3.trans hr)
   cases hcontra
 
@@ -1583,7 +1661,7 @@ trees of any nesting depth** (`Combine` inside `Compose` inside `Combine` …): 
 check `chainOKb` (reported by the driver for every generated case), all expressions construct variables `vars`,
 `Compose(*vars)` constructs `c`, applying `c` to the value equals applying the variables in order, and the data
 are the reference semantics `composeData` (getters in application order, tuples for `Combine`) -/
-theorem compose_eq_sequence_expr (nk : Bool) (tup : List D → D) (es : List (Expr D)) (x : Value D)
+theorem compose_eq_sequence_expr_partial (nk : Bool) (tup : List D → D) (es : List (Expr D)) (x : Value D)
     (h : chainOKb names (cvarOf names x) es = true) :
     ∃ vars c, evalArgs names true nk tup es = .ok (vars.map some) ∧
       mkCompose names true (vars.map some) (emptyD names.length) = .ok c ∧
@@ -1626,7 +1704,7 @@ theorem compose_eq_sequence_expr (nk : Bool) (tup : List D → D) (es : List (Ex
       · have := hsub _ hc
         rw [hT.compose] at this
         cases this
-  obtain ⟨c, hc, heq⟩ := compose_eq_sequence hn2.base vs hvne x hchain
+  obtain ⟨c, hc, heq⟩ := compose_eq_sequence_partial hn2.base vs hvne x hchain
   refine ⟨vs, c, hev, hc, heq, ?_, hres.types⟩
   intro d
   have hg := compose_getter hc
@@ -1636,7 +1714,7 @@ theorem compose_eq_sequence_expr (nk : Bool) (tup : List D → D) (es : List (Ex
 
 end
 
-/-! ### a chain of nesting depth 3 that passes `chainOKb` (non-vacuity of `compose_eq_sequence_expr`) -/
+/-! ### a chain of nesting depth 3 that passes `chainOKb` (non-vacuity of `compose_eq_sequence_expr_partial`) -/
 
 def exNames2 : List String :=
   ["a", "combine", "compose", "dim", "getter", "name", "t0", "ta", "tb", "type", "variable"]
